@@ -95,7 +95,9 @@ def relations(sc, V, oenv, ion, M, excl, symbolic):
 def scenarios(tier: str) -> List[Dict[str, Any]]:
     # since session 5 the quick tier runs what used to be the thorough scope (seconds); thorough adds peptides up to the
     # property's own bound of 15 residues (all 22 letters occur in each tier)
-    seqs = ["PE", "SEK", "TUDO", "KSTRN", "MQDESKW", "ACDEFGH", "VLIYPC"] + (["PEPTIDEPEPK", "ACDEFGHIKLMNPQR", "STVWYUOACDEFGHI"] if tier == "thorough" else [])
+    # PEP, KSK, TEDET: the terminal residues occur again inside the peptide (a residue-keyed cache or lookup that forgets the
+    # terminus would give the inner occurrence the terminal modification, or the terminal one none)
+    seqs = ["PE", "PEP", "SEK", "KSK", "TUDO", "KSTRN", "TEDET", "MQDESKW", "ACDEFGH", "VLIYPC"] + (["PEPTIDEPEPK", "ACDEFGHIKLMNPQR", "STVWYUOACDEFGHI"] if tier == "thorough" else [])
     mod_cfgs = [
         {},
         {"nterm": [["num", "v0", 1]]},
@@ -290,7 +292,7 @@ def run(tier: str, seed: int, only=None) -> Report:
                     "computed from the independent NIST/CODATA table in vf/oracles.py, and for which b_i + y_(n-i) != M + 2p. A wrong "
                     "entry in the library's composition tables (which C04 cannot see) is therefore a counterexample.",
         functions=FUNCS,
-        bounds="peptides PE, SEK, TUDO, KSTRN, MQDESKW, ACDEFGH, VLIYPC" + ("" if tier == "quick" else ", PEPTIDEPEPK, ACDEFGHIKLMNPQR, STVWYUOACDEFGHI") + " (20 standard letters + U, O "
+        bounds="peptides PE, PEP, SEK, KSK, TUDO, KSTRN, TEDET (terminal residues repeated inside), MQDESKW, ACDEFGH, VLIYPC" + ("" if tier == "quick" else ", PEPTIDEPEPK, ACDEFGHIKLMNPQR, STVWYUOACDEFGHI") + " (20 standard letters + U, O "
                "covered in each tier; length 2..15 in thorough); all 16 ion types at once; charges {1} and {1,2,3,4}; mono and average; numeric and formula "
                "modifications at termini and residues with multipliers 1..3",
         outside="peptides longer than 7; isotopes/losses (C04); IEEE rounding (S5)",
